@@ -61,7 +61,7 @@ static int verif_snprintf_d(char* buf, size_t n, int v)
 #define strtol verif_strtol
 #define strtoll verif_strtol
 #define atoi verif_atoi
-#define atol verif_strtol_l
+#define atol(s) verif_strtol(s, 0, 10)
 #define strcmp verif_strcmp
 #define snprintf(buf, n, fmt, v) verif_snprintf_d(buf, n, v)
 
